@@ -21,11 +21,24 @@ type CountCase struct {
 	ChanCap int      `json:"chancap,omitempty"`
 	Delays  []int    `json:"delays,omitempty"`
 	Solved  bool     `json:"solved,omitempty"` // Solve is called on each solver before it counts / enumerates
+	Grow    []int    `json:"grow,omitempty"`   // a 4th solver is solved, reset with Assume(nil), given this clause (which mentions variable n+1) and then enumerates
 }
 
 func genCountCase(r *Rng, tier string) CountCase {
 	c := genCountCase0(r, tier)
 	c.Solved = r.Chance(1, 4)
+	if c.Kind == "cnf" && r.Chance(1, 6) {
+		n := c.NbVars
+		if mv := maxVarCnf(c.Clauses); mv > n {
+			n = mv
+		}
+		if n >= 1 && n <= 7 {
+			c.Grow = append(randClauseDistinct(r, n, r.Range(1, min2(n, 2))), n+1)
+			if r.Bool() {
+				c.Grow[len(c.Grow)-1] = -(n + 1)
+			}
+		}
+	}
 	return c
 }
 
@@ -279,6 +292,31 @@ func runCountCase(o *Oracle, d json.RawMessage, oc *Outcome) {
 	if !equalStrings(gotM, wantM) {
 		dup, extra, missing := diffModels(gotM, wantM)
 		oc.Fail("spec", "enumerate-exact", "solver.Enumerate", "delivered %d models, expected %d: duplicated %v, not models %v, missing %v", len(gotM), len(wantM), dup, extra, missing)
+	}
+	// 2b. a live solver: solved, reset, extended with a clause over a new variable, then enumerated
+	if len(c.Grow) > 0 && pb.Status != solver.Unsat && c.Kind == "cnf" {
+		pb4, _ := c.problem()
+		if pb4.Status != solver.Unsat && pb4.NbVars == n {
+			s4 := solver.New(pb4)
+			if s4.Solve() == solver.Sat {
+				s4.Assume(nil)
+				ls := make([]solver.Lit, len(c.Grow))
+				for i, l := range c.Grow {
+					ls[i] = solver.IntToLit(int32(l))
+				}
+				s4.AppendClause(solver.NewClause(ls))
+				er4 := runEnumerate(s4, c.ChanCap, c.Delays)
+				want4 := o.Models(n+1, append(append([]Lin{}, sem...), clauseLin(c.Grow)))
+				g4 := append([]string(nil), er4.models...)
+				sort.Strings(g4)
+				sort.Strings(want4)
+				if !equalStrings(g4, want4) {
+					dup, extra, missing := diffModels(g4, want4)
+					oc.Fail("spec", "enumerate-exact", "solver.Solve+Assume+AppendClause+Enumerate", "delivered %d models, expected %d: duplicated %v, not models %v, missing %v", len(g4), len(want4), dup, extra, missing)
+				}
+				oc.Tag("grown-then-enumerated")
+			}
+		}
 	}
 	// 3. Enumerate without a channel
 	pb3, _ := c.problem()
